@@ -74,9 +74,21 @@ func c02(c *vc.Ctx) {
 		}
 	}
 	reduced := c02ReducedConfigs()
-	c.Rule = space.describe() + fmt.Sprintf("; configurations without KeepPadding (and without the refused Minify+SingleLine): all %d for corpus and depth<=1 programs, %d representative ones for layout-deviation and depth-2 programs, each also with Simplify applied before printing (reduced set); oracle: Print(Parse(P1)) == P1 byte for byte where P1 = Print(Parse(src)) (with Simplify: P1 = Print(Simplify(Parse(src))), P2 = Print(Simplify(Parse(P1)))); every failing configuration of an input is classified, one failure is reported per (input, variant); distinct = distinct P1 texts", len(fullConfigs), len(reduced))
+	c.Rule = space.describe() + fmt.Sprintf(" + %d hand-written layout-sensitive programs (c02_extra.go) in every variant; configurations without KeepPadding (and without the refused Minify+SingleLine): all %d for corpus and depth<=1 programs, %d representative ones for layout-deviation and depth-2 programs, each also with Simplify applied before printing (reduced set); oracle: Print(Parse(P1)) == P1 byte for byte where P1 = Print(Parse(src)) (with Simplify: P1 = Print(Simplify(Parse(src))), P2 = Print(Simplify(Parse(P1)))); every failing configuration of an input is classified, one failure is reported per (input, variant); distinct = distinct P1 texts", len(c02Extra), len(fullConfigs), len(reduced))
 	c.Assumptions = []string{"P1 not reparsing, or Print failing, is C01's business and not judged here"}
-	complete := vc.Run(c, func(emit func(synCase)) { genSyn(c, space, emit) }, func(t synCase) *vc.Fail {
+	gen := func(emit func(synCase)) {
+		if os.Getenv("VERIF_C02_EXTRA_ONLY") == "" {
+			genSyn(c, space, emit)
+		} else {
+			c.CapNote("VERIF_C02_EXTRA_ONLY set: only the hand-written programs were run (development aid)")
+		}
+		for _, src := range c02Extra {
+			for _, v := range synt.Variants {
+				emit(synCase{src, v.Name, 0})
+			}
+		}
+	}
+	complete := vc.Run(c, gen, func(t synCase) *vc.Fail {
 		ws := synt.GetWorkspace()
 		defer synt.PutWorkspace(ws)
 		lang := synt.LangByName(t.Variant)
